@@ -1,4 +1,4 @@
-import TinsModel.Wire.Chain.PadAll
+import TinsModel.Wire.Chain.ParseAll
 /-
   Whole-packet C03 over all covered families: **non-vacuity** — concrete stacks, their serialization (byte for byte, checksums
   included), the re-parse, and the theorems applied to them.
@@ -166,6 +166,39 @@ example : parseChain (ex5_bytes.length + 2) "Loopback" ex5_bytes =
 example : ∃ os', parseChain (ex5_bytes.length + 2) "Loopback" ex5_bytes = .ok os' ∧ ViewEqAll 0 ex5 os' := by
   rcases chain_reparse_all_net _ _ ex5_stackable ⟨.ip (.ip exIp), by simp, rfl⟩ ex5_bytes rfl with ⟨os', h1, h2, _⟩
   exact ⟨os', h1, h2⟩
+
+/-! #### `c03_all` on accepted byte strings -/
+
+/-- the 60-byte frame of example 1 (15 bytes of Ethernet padding behind the IP datagram) is accepted, and C03 holds for it
+    with the payload byte for byte -/
+example : ∃ out, serializeObjs ex1_re = .ok out ∧
+    ∃ os', parseChain (out.length + 2) "EthernetII" out = .ok os' ∧ ViewEqAll 0 ex1_re os' ∧
+      (splitRaw os').2 = [0xde, 0xad, 0xbe] :=
+  c03_all_net "EthernetII" ex1_bytes ex1_re (by decide) rfl
+    ⟨trivial, (by show (_ : Nat) < 65536; decide), trivial, trivial, trivial⟩
+    (fun o t h => by cases h) ⟨_, List.mem_cons_of_mem _ List.mem_cons_self, rfl⟩
+
+/-- an IP fragment (more-fragments set) in front of bytes that would otherwise be handed to the UDP constructor: parsed
+    with a RawPDU, representable, re-parsed with a RawPDU — `^protocol` is compared and survives -/
+def exFrag : Bytes := [0x45,0,0,24, 0,1,0x20,0, 64,17,0,0, 10,0,0,1, 10,0,0,2, 1,2,3,4]
+def exFrag_os : List AnyObj :=
+  [.ip (.ip ⟨4, 5, 0, 24, 1, 0x2000, 64, 17, 0, [10,0,0,1], [10,0,0,2], []⟩), .raw [1, 2, 3, 4]]
+example : parseChain (exFrag.length + 2) "IP" exFrag = .ok exFrag_os := rfl
+example : ∃ out, serializeObjs exFrag_os = .ok out ∧
+    ∃ os', parseChain (out.length + 2) "IP" out = .ok os' ∧ ViewEqAll 0 exFrag_os os' ∧ (splitRaw os').2 = [1, 2, 3, 4] :=
+  c03_all_net "IP" exFrag exFrag_os (by decide) rfl ⟨(by show (_ : Nat) < 65536; decide), trivial, trivial⟩
+    (fun o t h => by injection h with h1 _; injection h1 with h1; subst h1; rfl) ⟨_, List.mem_cons_self, rfl⟩
+
+/-- example 4 parsed from its bytes: IP / ICMP echo request -/
+def ex4_re : List AnyObj :=
+  [.ip (.ip { exIp with ihl := 5, totLen := 32, protocol := 1, check := 21671 }),
+   .icmp (.icmp { exIcmp with check := 34662 }), .raw [0x61, 0x62, 0x63, 0x64]]
+example : parseChain (ex4_bytes.length + 2) "IP" ex4_bytes = .ok ex4_re := rfl
+example : ∃ out, serializeObjs ex4_re = .ok out ∧
+    ∃ os', parseChain (out.length + 2) "IP" out = .ok os' ∧ ViewEqAll (padAll ex4_re) ex4_re os' :=
+  c03_all "IP" ex4_bytes ex4_re (by decide) rfl
+    ⟨(by show (_ : Nat) < 65536; decide), ⟨⟨by decide, by decide⟩, rfl, fun h => absurd h (by decide)⟩, trivial, trivial⟩
+    (fun o t h => by injection h with h1 _; injection h1 with h1; subst h1; rfl)
 
 /-! #### the hypotheses matter -/
 
